@@ -318,13 +318,20 @@ def scan_trusted(includes_and_units):
     for p in includes_and_units:
         if not os.path.exists(p):
             continue
-        cur_item = None
-        for ln, l in enumerate(open(p), 1):
+        lines = open(p).read().split('\n')
+        for ln, l in enumerate(lines, 1):
             if l.strip().startswith('//'):
                 continue
             m = pat.search(l)
             if m:
-                found.append('%s:%d: %s' % (os.path.relpath(p, VERIF), ln, l.strip()[:140]))
+                ctx = l.strip()
+                if ctx.startswith('#['):
+                    # attach the item the attribute decorates
+                    for nxt in lines[ln:ln + 4]:
+                        if nxt.strip() and not nxt.strip().startswith('#[') and not nxt.strip().startswith('//'):
+                            ctx += ' ' + nxt.strip()
+                            break
+                found.append('%s:%d: %s' % (os.path.relpath(p, VERIF), ln, ctx[:200]))
     return found
 
 
